@@ -63,6 +63,52 @@ def first_vars(p):
     return out
 
 
+def mk_skipto(rng, nparts):
+    """AFTER MATCH SKIP TO FIRST / LAST <var> (SKIP TO <var> = LAST) for PATTERN (A B+) and (A B+ C): A is not defined (every row),
+    so the row a match resumes at can start the next match"""
+    withc = rng.random() < 0.6
+    pat = seq(var("A"), q(var("B"), 1, -1), var("C")) if withc else seq(var("A"), q(var("B"), 1, -1))
+    defs = [{"v": "B", "k": "gt", "c": 10000}]
+    dsql = ["B AS v > 1"]
+    if withc:
+        defs.append({"v": "C", "k": "lt", "c": 10000}); dsql.append("C AS v < 1")
+    how = rng.choice(["first", "last", "var"])
+    skip = "first" if how == "first" else "last"
+    stxt = {"first": "SKIP TO FIRST B", "last": "SKIP TO LAST B", "var": "SKIP TO B"}[how]
+    part = "g" if nparts > 1 else ""
+    sql = "SELECT * FROM stream MATCH_RECOGNIZE (%sORDER BY ts MEASURES MATCH_NUMBER() AS mn, FIRST(id) AS f, LAST(id) AS l, COUNT(*) AS n, FIRST(g) AS g ONE ROW PER MATCH AFTER MATCH %s PATTERN (%s) DEFINE %s)" % (
+        "PARTITION BY g " if part else "", stxt, psql(pat), ", ".join(dsql))
+    rows = []
+    for i in range(rng.choice([6, 8, 10]) * nparts):
+        rows.append({"id": i + 1, "ts": i + 1, "g": "p%d" % rng.randrange(nparts), "v": rng.choice([0, 2, 2, 2, 3, 1])})
+    # every partition ends with two rows that neither continue nor start a match: no match is still open at Stop (what the flush
+    # does with a match that ends at Stop under SKIP TO <var> is noted in DESIGN.md, not claimed)
+    n0 = len(rows)
+    for pn in range(nparts):
+        for k in range(2):
+            rows.append({"id": n0 + 2 * pn + k + 1, "ts": n0 + 2 * pn + k + 1, "g": "p%d" % pn, "v": 1})
+    meta = {"fam": "cep", "pat": pat, "defs": defs, "skip": skip, "skback": 1 if withc else 0, "part": part}
+    return {"meta": meta, "sql": sql, "rows": rows, "stop": True}
+
+
+def mk_idle(rng):
+    """a small WITHIN makes the engine's sweeper run; partitions that sit idle between two bursts keep their MATCH_NUMBER"""
+    pat = seq(var("A"), var("B"))
+    defs = [{"v": "A", "k": "gt", "c": 10000}, {"v": "B", "k": "lt", "c": 10000}]
+    sql = ("SELECT * FROM stream MATCH_RECOGNIZE (PARTITION BY g ORDER BY ts MEASURES MATCH_NUMBER() AS mn, FIRST(id) AS f, LAST(id) AS l, COUNT(*) AS n, FIRST(g) AS g "
+           "ONE ROW PER MATCH AFTER MATCH SKIP PAST LAST ROW PATTERN (A B) WITHIN '400ms' DEFINE A AS v > 1, B AS v < 1)")
+    ops, rid = [], 0
+    for burst in range(rng.choice([2, 3])):
+        for g in rng.sample(["p0", "p1", "p2"], rng.choice([2, 3])):
+            for _ in range(rng.choice([1, 2])):          # complete (A B) pairs only: nothing is in flight when the partition falls idle
+                for v in (rng.choice([2, 3]), 0):
+                    rid += 1
+                    ops.append({"op": "emit", "row": {"id": rid, "ts": rid, "g": g, "v": v}})
+        ops.append({"op": "sleep", "ms": rng.choice([900, 1200])})       # several sweeper periods (200 ms)
+    meta = {"fam": "cep", "pat": pat, "defs": defs, "skip": "past", "part": "g"}
+    return {"meta": meta, "sql": sql, "ops": ops, "rows": [], "stop": True, "max_gap_ms": 150}
+
+
 def mk(rng, interleave, nparts):
     pat = rng.choice(PATTERNS)
     vs = vars_of(pat, [])
@@ -107,6 +153,10 @@ def run(tier):
     for i in range(2500 if quick else 100000):
         nparts = [1, 1, 2, 3][i % 4]
         scen.append(mk(rng, interleave=(i % 8 >= 4), nparts=nparts))
+    for i in range(300 if quick else 6000):
+        scen.append(mk_skipto(rng, [1, 1, 2][i % 3]))
+    for i in range(6 if quick else 60):
+        scen.append(mk_idle(rng))
     seqfam.run_scenarios(res, scen, "TraceCep", tag="cep")
     seqfam.run_pinned(res, "TraceCep")
     res.cov["exhaustive"] = False
